@@ -43,7 +43,7 @@ func checkC12(c *Ctx, r *Result, tier string) {
 	for _, f := range []*types.Var{fMutexes, fOwners} {
 		total += g.checkElems(r, "R12b-guard", f, "ECALRuntimeProvider."+f.Name(), "MutexesMutex", c.ModFuncs())
 	}
-	r.Floor("R12b-guard", total, 5)
+	r.Floor("R12b-guard", total, 4)
 
 	var blockFn *ssa.Function
 	var userLock LockOp
@@ -89,7 +89,7 @@ func checkC12(c *Ctx, r *Result, tier string) {
 			}
 		}
 	}
-	r.Floor("R12b-table-ops", len(ops), 5)
+	r.Floor("R12b-table-ops", len(ops), 4)
 	// same key
 	keys := map[string]int{}
 	for _, o := range ops {
